@@ -351,6 +351,11 @@ func wktSets() []*Set {
 	c.addMap("attrs", 5, tString, wk[5])
 	c.add(repeated(field("history", 6, wk[1])))
 	f.msg(c)
+	// a type that recurses through an Any (its payload can be a Box again)
+	bx := newMsg("."+pkg, "Box")
+	bx.add(field("content", 1, wk[0]))
+	bx.add(field("label", 2, kindSpec{t: tString}))
+	f.msg(bx)
 	// a proto3 message holding proto2 messages with required fields (CheckInitialized must look inside)
 	f.dep("google/protobuf/descriptor.proto")
 	p2 := newMsg("."+pkg, "HoldsProto2")
